@@ -203,9 +203,9 @@ class Check:
     def _violation(self, oid, desc, path, model, site, rec):
         key = site or path.short()
         for k in self.known:
-            if k.get('property') == self.pid and k.get('obligation') == oid and (not k.get('site') or k['site'] == key) \
+            if k.get('property') == self.pid and (k.get('obligation') == oid or (k.get('prefix') and oid.startswith(k['obligation']))) and (not k.get('site') or k['site'] == key) \
                     and k.get('status', 'open') == 'open':
-                self.known_hits.append((oid, k.get('what', desc)))
+                self.known_hits.append((k.get('obligation') if k.get('prefix') else oid, k.get('what', desc)))
                 rec['known_finding'] = True
                 return
         os.makedirs(REPLAYS, exist_ok=True)
